@@ -1460,6 +1460,37 @@ def correspondence(ctx):
             real = {"err": type(e).__name__}
         reqs.append(("addfeature", dict(view=view_json(v), spans=spans, minus=acase["strand"] == "-")))
         expect.append(("addfeature", dict(added_case=acase, spans=spans), real, None))
+    # (h') the WHOLE of add_feature (db record + the Feature it returns, or the exception class) vs addFeature, also for span
+    # lists that overhang the view, are unordered, empty-width or reversed pairs (the model of the translated function)
+    for i in range(ctx.budget(150, 1500)):
+        acase = gen_added_case(rng)
+        try:
+            root = mk_seq(acase["kind"], acase["text"], acase["offset"])
+            v = root
+            for op in acase["ops"]:
+                v = apply_op(v, op)
+        except Exception:  # noqa: BLE001
+            continue
+        L = len(v)
+        if L < 3 or root.annotation_db is not v.annotation_db:
+            continue
+        spans, klass = _gen_rel_spans(rng, L)
+        if not spans:
+            continue
+        strand = rng.choice(["+", "-", None])
+        try:
+            kw = dict(biotype="gene", name="addedfull", spans=[tuple(x) for x in spans])
+            if strand is not None:
+                kw["strand"] = strand
+            f = v.add_feature(**kw)
+            rec = list(root.annotation_db.get_features_matching(name="addedfull"))[0]
+            real = dict(db=[[int(a), int(b)] for a, b in rec["spans"]], minus=rec["strand"] == "-",
+                        spans=[["lost", int(x.length)] if x.lost else [int(x.start), int(x.end)] for x in f.map.spans],
+                        reversed=bool(f.reversed))
+        except (ValueError, IndexError, AssertionError, RuntimeError) as e:
+            real = {"err": type(e).__name__}
+        reqs.append(("addfeature_full", dict(view=view_json(v), spans=spans, minus=strand == "-")))
+        expect.append(("addfeature_full", dict(added_case=acase, spans=spans, strand=strand, klass=klass), real, None))
     # (d) projection of sequence features onto alignment columns (Aligned.make_feature) vs FMap.project
     def fm_json(m):
         return dict(pl=int(m.parent_length), spans=[["l", int(x.length)] if x.lost else ["s", int(x.start), int(x.end), bool(x.reverse)] for x in m.spans])
@@ -1603,6 +1634,12 @@ def correspondence(ctx):
                 add_failure(out, "corr", "addFeatureRecord model differs from the record add_feature wrote", inp, rep, real, confirmed=False)
             else:
                 out["nontrivial"].add(("addf", json.dumps(inp["added_case"]["ops"]), inp["added_case"]["text"], str(inp["spans"])))
+        elif kind == "addfeature_full":
+            bump(out, "addfeature_full", ("err:" + real["err"] if "err" in real else "ok") + ":" + inp["klass"])
+            if rep != real:
+                add_failure(out, "corr", "addFeature model differs from Sequence.add_feature (db record / returned feature / exception class)", inp, rep, real, confirmed=False)
+            elif "err" not in real and (any(x[0] == "lost" for x in real["spans"]) or inp["added_case"]["ops"]):
+                out["nontrivial"].add(("addfull", json.dumps(inp["added_case"]["ops"]), inp["added_case"]["text"], str(inp["spans"])))
         elif kind == "copyview":
             if rep != real:
                 add_failure(out, "corr", "copyView model differs from the slice record of Sequence.copy()", inp, rep, real, confirmed=False)
